@@ -119,7 +119,7 @@ fn h(name: &str) -> u64 {
 
 /// The designated callers of `method` on the actor `to` (of type `ty`) in the current state of `vm`.
 /// None = the table does not know this method number (no expectation).
-pub fn designated(vm: &SimVM, to: ActorID, ty: Type, method: MethodNum) -> Option<Allow> {
+pub fn designated(vm: &SimVM, to: ActorID, ty: Type, method: MethodNum, params: &Option<IpldBlock>) -> Option<Allow> {
     use Allow::*;
     let sys = || Allow::ids([SYSTEM_ACTOR_ID]);
     if method == 1 {
@@ -193,7 +193,20 @@ pub fn designated(vm: &SimVM, to: ActorID, ty: Type, method: MethodNum) -> Optio
             let st: fil_actor_multisig::State = vm.get_state(to)?;
             let signers: Vec<ActorID> = st.signers.iter().filter_map(id_of).collect();
             match m {
-                2 | 3 | 4 => Allow::ids(signers),
+                2 | 3 => Allow::ids(signers),
+                4 => {
+                    // Cancel: only the proposer of that transaction (the first approver on record)
+                    let p: Option<fil_actor_multisig::TxnIDParams> = params.as_ref().and_then(|b| b.deserialize().ok());
+                    let proposer = p.and_then(|p| {
+                        let ptx = fil_actor_multisig::PendingTxnMap::load(&*vm.store, &st.pending_txs, fil_actor_multisig::PENDING_TXN_CONFIG, "pending").ok()?;
+                        let tx = ptx.get(&p.id).ok()??.clone();
+                        tx.approved.first().and_then(id_of)
+                    });
+                    match proposer {
+                        Some(pr) => Allow::ids([pr]),
+                        None => Allow::ids(signers),
+                    }
+                }
                 5..=9 => Allow::ids([to]),
                 x if x == h("Receive") => Any,
                 _ => return None,
@@ -365,7 +378,7 @@ impl Prober {
     #[allow(clippy::too_many_arguments)]
     fn substitute(&self, vm: &SimVM, s: &Snapshot, from0: ActorID, to: ActorID, ty: Type, method: MethodNum, params: &Option<IpldBlock>, value: &TokenAmount, nested: bool) {
         vm.restore(s);
-        let allow = designated(vm, to, ty, method);
+        let allow = designated(vm, to, ty, method, params);
         if let Some(a) = &allow {
             // the caller that succeeded must be designated (the table would otherwise be wrong, or the code too lax)
             if !a.contains(from0, vm.actor_type(from0)) {
@@ -520,7 +533,7 @@ impl Engine for C11 {
     }
     fn budget(&self, tier: Tier) -> (u32, u32) {
         match tier {
-            Tier::Quick => (64, 12),
+            Tier::Quick => (64, 24),
             Tier::Thorough => (256, 40),
         }
     }
